@@ -186,11 +186,12 @@ def fn_key_matches(bname: str, fid: str, crate: str) -> bool:
 
 
 def run_unit(spec_path: str, tier: str, seed: int, kf_omit: set, do_vacuity: bool = True, rlimit: Optional[float] = None,
-             tag: str = "") -> UnitResult:
+             tag: str = "", bdir: str = "") -> UnitResult:
     meta, _ = gen.parse_spec(spec_path)
     unit = meta["unit"]
     R = UnitResult(unit)
-    os.makedirs(BUILD, exist_ok=True)
+    bdir_abs = os.path.join(BUILD, bdir) if bdir else BUILD
+    os.makedirs(bdir_abs, exist_ok=True)
     bad = forbidden_in_specs(spec_path)
     if bad:
         R.status = "undecided"; R.reason = "forbidden assumption in specs/: " + "; ".join(bad); return R
@@ -206,7 +207,7 @@ def run_unit(spec_path: str, tier: str, seed: int, kf_omit: set, do_vacuity: boo
     if rt:
         R.status = "undecided"; R.reason = f"round-trip mismatch for {rt}"; return R
     crate = f"{unit.replace('-', '_')}{tag}"
-    path = os.path.join(BUILD, crate + ".rs")
+    path = os.path.join(bdir_abs, crate + ".rs")
     open(path, "w").write(text)
     R.build_file = path
     R.functions = g.functions
@@ -215,7 +216,7 @@ def run_unit(spec_path: str, tier: str, seed: int, kf_omit: set, do_vacuity: boo
     extra = ["--multiple-errors", "50"]
     if rlimit: extra += ["--rlimit", str(rlimit)]
     if seed: extra += ["--smt-option", f"smt.random_seed={seed}"]
-    R.checker_cmd = f"CARGO_PKG_VERSION=2.0.0 verus build/{crate}.rs --output-json --time --error-format=json " + " ".join(extra)
+    R.checker_cmd = f"CARGO_PKG_VERSION=2.0.0 verus {os.path.relpath(path, ROOT)} --output-json --time --error-format=json " + " ".join(extra)
     res, diags, dt, raw = run_verus(path, extra)
     R.wall += dt
     vr = res.get("verification-results", {})
@@ -289,7 +290,7 @@ def run_unit(spec_path: str, tier: str, seed: int, kf_omit: set, do_vacuity: boo
         gen.Source.cache.clear()
         gv = gen.Gen(spec_path, "vacuity", kf_omit=kf_omit)
         vtext, vmeta = gv.build()
-        vpath = os.path.join(BUILD, crate + "_vac.rs")
+        vpath = os.path.join(bdir_abs, crate + "_vac.rs")
         open(vpath, "w").write(vtext)
         vres, vdiags, vdt, vraw = run_verus(vpath, ["--multiple-errors", "0"])
         R.wall += vdt
@@ -327,7 +328,7 @@ def serves(o: dict, prop: str, unit_props: List[str]) -> bool:
 def check_property(prop: str, tier: str, seed: int, quiet: bool = False) -> int:
     t0 = time.time()
     specs = units_for(prop)
-    ev_path = os.path.join(ROOT, "evidence", f"{prop}.json")
+    ev_path = os.path.join(os.environ.get("VERIF_EVIDENCE_DIR") or os.path.join(ROOT, "evidence"), f"{prop}.json")
     os.makedirs(os.path.dirname(ev_path), exist_ok=True)
     if os.path.exists(ev_path): os.remove(ev_path)
     if not specs:
@@ -342,7 +343,7 @@ def check_property(prop: str, tier: str, seed: int, quiet: bool = False) -> int:
     with ThreadPoolExecutor(max_workers=8) as ex:
         futs = []
         for sp in specs:
-            futs.append(ex.submit(run_unit, sp, tier, 0, kf_omit, True, None, ""))
+            futs.append(ex.submit(run_unit, sp, tier, 0, kf_omit, True, None, "", prop))
         results = [f.result() for f in futs]
     unstable = []
     if tier == "thorough":
@@ -351,7 +352,7 @@ def check_property(prop: str, tier: str, seed: int, quiet: bool = False) -> int:
             futs = []
             for sp in specs:
                 for sd in seeds[1:]:
-                    futs.append((sp, sd, ex.submit(run_unit, sp, tier, sd, kf_omit, False, 20.0, f"_s{sd}")))
+                    futs.append((sp, sd, ex.submit(run_unit, sp, tier, sd, kf_omit, False, 20.0, f"_s{sd}", prop)))
             for sp, sd, f in futs:
                 r2 = f.result()
                 base = next(r for r in results if r.unit == r2.unit)
@@ -367,7 +368,7 @@ def check_property(prop: str, tier: str, seed: int, quiet: bool = False) -> int:
         sp = os.path.join(ROOT, "specs", unit + ".vs")
         if not os.path.exists(sp): continue
         omit = kf_omit - {k["obligation"]}
-        r = run_unit(sp, tier, 0, omit, False, None, "_kf")
+        r = run_unit(sp, tier, 0, omit, False, None, "_kf", prop)
         still = any(x["oid"] == k["obligation"] for x in r.failed)
         kf_results.append({"obligation": k["obligation"], "still_fails": still, "status": r.status, "reason": r.reason})
         if still:
@@ -398,7 +399,7 @@ def check_property(prop: str, tier: str, seed: int, quiet: bool = False) -> int:
     out_lines = []
     if violations:
         rc = 1
-        rdir = os.path.join(ROOT, "replay", prop)
+        rdir = os.path.join(os.environ.get("VERIF_REPLAY_DIR") or os.path.join(ROOT, "replay"), prop)
         os.makedirs(rdir, exist_ok=True)
         for r, f in violations:
             fn = r.functions.get(f["fid"], {}) if f["fid"] else {}
@@ -415,6 +416,7 @@ def check_property(prop: str, tier: str, seed: int, quiet: bool = False) -> int:
                        "verus_message": f["message"], "verus_output": f["excerpt"],
                        "build_file": os.path.relpath(r.build_file, ROOT) if r.build_file else None, "build_line": f["line"],
                        "checker_cmd": r.checker_cmd, "counterexample": cex,
+                       "proof_hints_skipped_because_their_anchor_statement_is_gone": fn.get("skipped_hints", []),
                        "note": "obligation is discharged on the unchanged tree (specs/BASELINE_OBLIGATIONS.json) and fails on this tree"},
                       open(rp, "w"), indent=1)
             tail = "" if cex else " no-failing-input-found"
